@@ -144,6 +144,8 @@ theorem apply0_hist_frame (w : World) (l : Label) (b : BId) (h : writesHist l = 
     · simp
   case wiEnd => simp [apply0]
   case wiCancel => simp [apply0]
+  case expectTimeout x' => simp only [apply0]; split <;> simp
+  case expectCancelReq x' => simp only [apply0]; split <;> simp
   case stopBegin x b' c => by_cases hb : b = b' <;> simp [apply0, hb, setBus_bus]
   case stopNoop => simp [apply0]
   case rlExit b' =>
@@ -158,12 +160,12 @@ theorem apply0_hist_frame (w : World) (l : Label) (b : BId) (h : writesHist l = 
   case expectEnd x got =>
     simp only [apply0]
     split
-    · rename_i b' _ _ _ _ _; by_cases hb : b = b' <;> simp [hb, setBus_bus]
+    · rename_i b' _ _ _ _ _ _; by_cases hb : b = b' <;> simp [hb, setBus_bus]
     · simp
   case expectCancel x =>
     simp only [apply0]
     split
-    · rename_i b' _ _ _ _ _; by_cases hb : b = b' <;> simp [hb, setBus_bus]
+    · rename_i b' _ _ _ _ _ _; by_cases hb : b = b' <;> simp [hb, setBus_bus]
     · simp
 
 end Bubus
